@@ -29,6 +29,7 @@ TEXTS = {
     "ir": ".import * from \"main.asm\"\next: nop\n",        # imports the entry file: a cycle as soon as main imports inc
     "ca": '[build]\nentry = "main.asm"\n',
     "cb": '[build]\nentry = "src/start.asm"\n',            # names a file that does not exist (yet)
+    "cc": '[build]\nentry = "inc.asm"\n',                  # another existing file is the entry
     "-": "",
     "ix": "ext: nop\n  lda #\n",
     "oth": "oth: nop\n  jmp oth\n",
@@ -125,7 +126,9 @@ class Session:
         if k == "nonfile":                       # didOpen of a document that is not a file
             self.srv.did_open("untitled:Untitled-1", text)
             self._ev(k="nonfile", f="untitled:Untitled-1", kind="open")
-            return self.request("workspaceSymbol", f, 0, 0, query="\u0001none")
+            ok = self.request("workspaceSymbol", f, 0, 0, query="\u0001none")
+            self._round()          # (the re-analysis it triggers publishes for the unchanged project: not part of a later round)
+            return ok
         if k == "change" and nch == 0:
             self.srv.did_change_multi(path, [])
             tid = self.buf[f]
@@ -382,7 +385,7 @@ def random_script(rnd, n, layout="A"):
     DISK = LAYOUTS[layout]
     for _ in range(rnd.randrange(4, 9)):
         f = rnd.choice(["main.asm", "main.asm", "inc.asm", "inc.asm", "mos.toml"])
-        tids = ["ma", "mb", "mx"] if f == "main.asm" else ["ia", "ib", "ix", "ir"] if f == "inc.asm" else ["ca", "cb"]
+        tids = ["ma", "mb", "mx"] if f == "main.asm" else ["ia", "ib", "ix", "ir"] if f == "inc.asm" else ["ca", "cb", "cc"]
         x = rnd.random()
         if f in openb and x < 0.25:
             sc.append(("close", f))
